@@ -494,3 +494,26 @@ def oracle_c09(rep, scn, replay, obs, root, report):
         if changed and o["outcome"] != ["exit", 12]:
             sig = "dh-missed-change" if every_format_fails else "dh-missed-change-some-format-still-verifies"
             report(sig, i, ["exit", 12], o["outcome"], f"verify -dh does not fail although recorded directory hashes no longer match (formats with mismatches: {sorted(mism)}, recorded root formats: {sorted(fmts_root)})")
+
+
+# ------------------------------------------------------------------------------------------------ C05
+
+
+def oracle_c05(rep, scn, replay, obs, root, report):
+    fault = None
+    for i, (st, o) in enumerate(zip(scn["steps"], obs)):
+        if st["op"] in ("tamper", "rmmanifest", "rmchain"):
+            fault = st
+            continue
+        if fault is None or st["op"] not in world.COMMANDS:
+            continue
+        want = {"tamper": 31, "rmmanifest": 33, "rmchain": 32}[fault["op"]]
+        name = st["op"] + ("-sf" if st.get("sf") else "")
+        _count(rep, f"c05.{fault['op']}.{fault.get('kind', '')}.{name}")
+        _count(rep, "c05.fault_in_" + ("nested" if fault["hist"] else "root") + f".gen{fault.get('gen', 0)}")
+        if o["outcome"] != ["exit", want]:
+            report(f"not-refused-{fault['op']}", i, ["exit", want], o["outcome"],
+                   f"{name} did not refuse with exit {want} although {fault['op']} was applied to history {fault['hist'] or '.'} generation {fault.get('gen')}")
+        changed = (o.get("_fs_changed") or []) + ["<dest>/" + x for x in (o.get("_aux_changed") or []) if not x.startswith("patterns")]
+        if changed:
+            report("refused-command-wrote", i, "nothing written", changed[:10], f"{name} wrote to the file system although the history is damaged")
